@@ -483,51 +483,65 @@ impl C19 {
                 stats.probe("runs_with_tie_among_maximal_pairs_at_first_merge", 1);
             }
         }
-        // ---- a tokenizer built from the table: lossless + vocabulary-consistent
-        let tok = match BPETokenizer::new(
-            BPETokenizerConfig { merge_file: out_file.into(), max_vocab_size: None, use_graphemes: true },
-            SpecialConfig::default(),
-        ) {
-            Ok(t) => t,
-            Err(e) => return v("tokenizer:cannot-build", format!("num_threads={t}: {e:#}")),
-        };
-        let vocab = match tok.get_vocab() {
-            Ok(v) => v,
-            Err(e) => return v("tokenizer:get_vocab", format!("{e:#}")),
-        };
-        if vocab.len() != tok.vocab_size() {
-            return v("tokenizer:vocab-size", format!("get_vocab has {} entries, vocab_size() = {}", vocab.len(), tok.vocab_size()));
+        // ---- a tokenizer built from the table: lossless + vocabulary-consistent, also when the
+        //      vocabulary is limited to a prefix of the merges (max_vocab_size)
+        let specials = SpecialConfig::default().tokens.len();
+        let mut limits: Vec<(Option<usize>, usize)> = vec![(None, n)];
+        if n >= 2 {
+            limits.push((Some(256 + specials + n / 2), n / 2));
         }
-        for (id, tokb) in vocab.iter().enumerate() {
-            if tok.id_to_token(id as u32).as_ref() != Some(tokb) {
-                return v("tokenizer:id_to_token", format!("id_to_token({id}) = {:?}, get_vocab()[{id}] = {:?}", tok.id_to_token(id as u32), tokb));
+        for (max_vocab_size, kept) in limits {
+            let tok = match BPETokenizer::new(
+                BPETokenizerConfig { merge_file: out_file.into(), max_vocab_size, use_graphemes: true },
+                SpecialConfig::default(),
+            ) {
+                Ok(t) => t,
+                Err(e) => return v("tokenizer:cannot-build", format!("num_threads={t}: {e:#}")),
+            };
+            let vocab = match tok.get_vocab() {
+                Ok(v) => v,
+                Err(e) => return v("tokenizer:get_vocab", format!("{e:#}")),
+            };
+            if vocab.len() != tok.vocab_size() {
+                return v("tokenizer:vocab-size", format!("max_vocab_size={max_vocab_size:?}: get_vocab has {} entries, vocab_size() = {}", vocab.len(), tok.vocab_size()));
             }
-            if let Ok(s) = std::str::from_utf8(tokb) {
-                if tok.token_to_id(s) != Some(id as u32) {
-                    return v("tokenizer:token_to_id", format!("token_to_id({s:?}) = {:?}, expected {id}", tok.token_to_id(s)));
+            if vocab.len() != 256 + kept + specials {
+                return v("tokenizer:vocab-size", format!("max_vocab_size={max_vocab_size:?}: vocabulary has {} entries, expected 256 + {kept} merges + {specials} special tokens", vocab.len()));
+            }
+            for (id, tokb) in vocab.iter().enumerate() {
+                if tok.id_to_token(id as u32).as_ref() != Some(tokb) {
+                    return v("tokenizer:id_to_token", format!("max_vocab_size={max_vocab_size:?}: id_to_token({id}) = {:?}, get_vocab()[{id}] = {:?}", tok.id_to_token(id as u32), tokb));
+                }
+                if let Ok(s) = std::str::from_utf8(tokb) {
+                    if tok.token_to_id(s) != Some(id as u32) {
+                        return v("tokenizer:token_to_id", format!("max_vocab_size={max_vocab_size:?}: token_to_id({s:?}) = {:?}, expected {id}", tok.token_to_id(s)));
+                    }
                 }
             }
-        }
-        if tok.id_to_token(vocab.len() as u32).is_some() {
-            return v("tokenizer:id_to_token", format!("id_to_token({}) beyond the vocabulary is Some", vocab.len()));
-        }
-        for i in 0..n {
-            if vocab.get(256 + i) != Some(&table[i]) {
-                return v("tokenizer:merge-id", format!("vocabulary entry {} is not merge {i}", 256 + i));
+            if tok.id_to_token(vocab.len() as u32).is_some() {
+                return v("tokenizer:id_to_token", format!("id_to_token({}) beyond the vocabulary is Some", vocab.len()));
             }
-        }
-        for w in words.keys() {
-            let text = w.trim_start();
-            let ids = match tok.tokenize(text, true) {
-                Ok(t) => t.token_ids,
-                Err(e) => return v("tokenizer:tokenize", format!("{e:#}")),
-            };
-            if ids.iter().any(|id| *id as usize >= vocab.len()) {
-                return v("tokenizer:invalid-id", format!("tokenize({text:?}) = {ids:?} with vocabulary size {}", vocab.len()));
+            for i in 0..kept {
+                if vocab.get(256 + i) != Some(&table[i]) {
+                    return v("tokenizer:merge-id", format!("max_vocab_size={max_vocab_size:?}: vocabulary entry {} is not merge {i}", 256 + i));
+                }
             }
-            match tok.de_tokenize(&ids, true) {
-                Ok(back) if back == text => {}
-                other => return v("tokenizer:lossless", format!("de_tokenize(tokenize({text:?})) = {other:?}")),
+            for w in words.keys() {
+                let text = w.trim_start();
+                let ids = match tok.tokenize(text, true) {
+                    Ok(t) => t.token_ids,
+                    Err(e) => return v("tokenizer:tokenize", format!("{e:#}")),
+                };
+                if ids.iter().any(|id| *id as usize >= vocab.len()) {
+                    return v("tokenizer:invalid-id", format!("max_vocab_size={max_vocab_size:?}: tokenize({text:?}) = {ids:?} with vocabulary size {}", vocab.len()));
+                }
+                match tok.de_tokenize(&ids, true) {
+                    Ok(back) if back == text => {}
+                    other => return v("tokenizer:lossless", format!("max_vocab_size={max_vocab_size:?}: de_tokenize(tokenize({text:?})) = {other:?}")),
+                }
+            }
+            if max_vocab_size.is_some() {
+                stats.probe("tokenizers_with_limited_vocabulary_checked", 1);
             }
         }
         stats.probe("tables_checked", 1);
